@@ -112,7 +112,14 @@ impl<TR: ToTokens> FnDelegationCodegen<'_, TR> {
         let opt_self_comma = match (deps, entrait_sig.sig.inputs.first(), &self.impl_indirection) {
             (generics::FnDeps::NoDeps { .. }, _, _) | (_, None, _) => None,
             (_, _, ImplIndirection::Static { .. } | ImplIndirection::Dynamic { .. }) => None,
-            (_, Some(_), _) => Some(SelfArgComma(&self.impl_indirection, span)),
+            (_, Some(first_arg), _) => {
+                // `self` only names the receiver in the hygiene context of the receiver
+                let self_span = match first_arg {
+                    syn::FnArg::Receiver(receiver) => receiver.self_token.span,
+                    _ => span,
+                };
+                Some(SelfArgComma(&self.impl_indirection, self_span))
+            }
         };
 
         let arguments = entrait_sig
